@@ -4,54 +4,61 @@
 -/
 import PycommModel.Logix.Upload
 import PycommProofs.RTLemmas
+import PycommProofs.UPDefs
+import PycommProofs.UPBasic
 namespace Pycomm.Lgx.Up
 open Pycomm Pycomm.Tgt Pycomm.Lgx
 
-/-- field ranges of a symbol as the wire format can carry them -/
-def WfSymbol (s : Symbol) : Prop :=
-  s.inst < 2 ^ 32 ∧ s.name.length < 65536 ∧ (∀ c ∈ s.name, c < 256) ∧ s.symbolType < 65536 ∧
-  s.attr3 < 2 ^ 32 ∧ s.attr5 < 2 ^ 32 ∧ s.attr6 < 2 ^ 32 ∧ (∀ d ∈ s.dims, d < 2 ^ 32) ∧ s.access < 256
+-- `WfSymbol`, `Ident`, `WfMember`, `WfTemplate`, `hidden`, `isPredefined` are in PycommProofs/UPDefs.lean (verbatim);
+-- helper lemmas (`up_…`) in PycommProofs/UPBasic.lean
 
-/-- an identifier as the controller stores it: ASCII, no NUL, no ';' -/
-def Ident (n : Name) : Prop := n ≠ [] ∧ ∀ c ∈ n, 0 < c ∧ c < 128 ∧ c ≠ 59
+/-- a concrete symbol for the non-vacuity examples -/
+def exSym : Symbol :=
+  { inst := 7, name := [84, 97, 103, 49], symbolType := 0x20C4, dims := [5, 2], attr3 := 0x1000, attr5 := 0x2000,
+    attr6 := 0x4000000, access := 2, mem := [] }
 
-def WfMember (m : MemberDef) : Prop :=
-  Ident m.name ∧ m.info < 65536 ∧ m.typeWord < 65536 ∧ m.offset < 2 ^ 32
-
-/-- the stored name field is "Name;encoded-info" -/
-def WfTemplate (t : Template) (tname : Name) (junk : Bytes) : Prop :=
-  Ident tname ∧ (∀ b ∈ junk, b ≠ 0) ∧
-  t.nameField = tname.map (fun c => UInt8.ofNat c) ++ [59] ++ junk ∧
-  ∀ m ∈ t.members, WfMember m
-
-/-- which members the driver hides (documented: ZZZZZZZZZZ…, __…, and CTL / Control of predefined types) -/
-def hidden (predefine : Bool) (name : Name) : Bool :=
-  PyStr.startsWith (nm "ZZZZZZZZZZ") name || PyStr.startsWith (nm "__") name ||
-  (predefine && (name == nm "CTL" || name == nm "Control"))
-
-def isPredefined (symbolType : Nat) : Bool := symbolType % 4096 < 0x100 || symbolType % 4096 > 0xEFF
+/-- a concrete structure definition: "MyT;n<0xC8>" with a hidden padding member -/
+def exTmpl : Template :=
+  { id := 0x123, handle := 0xBEEF, size := 12,
+    nameField := [77, 121, 84, 59, 110, 0xC8],
+    members := [⟨[76, 69, 78], 0, 0xC4, 0⟩, ⟨[95, 95, 112, 97, 100], 0, 0xC2, 4⟩, ⟨[68, 65, 84, 65], 4, 0xC2, 5⟩] }
 
 -- PROPERTY THEOREMS
 
 /-- one record: parsing the controller's encoding of a symbol (with the attribute list the client asks for)
     returns exactly its fields and leaves exactly the following bytes -/
 theorem record_roundtrip (wa : Bool) (s : Symbol) (rest : Bytes) (h : WfSymbol s) :
-    parseRecord wa (encSymbolRecord s (wantedAttrs wa) ++ rest) = .ok (recOfSymbol wa s, rest) := by
-  sorry
+    parseRecord wa (encSymbolRecord s (wantedAttrs wa) ++ rest) = .ok (recOfSymbol wa s, rest) :=
+  up_record wa s rest h
+
+example : WfSymbol exSym := by unfold WfSymbol; decide
+example : parseRecord true (encSymbolRecord exSym (wantedAttrs true) ++ [1, 2]) = .ok (recOfSymbol true exSym, [1, 2]) :=
+  record_roundtrip true exSym [1, 2] (by unfold WfSymbol; decide)
 
 /-- a whole reply page: every record comes back, in order, with its instance id, name, type word, addresses,
     software control word, dimensions and (from revision 18) external access -/
 theorem records_roundtrip (wa : Bool) (ss : List Symbol) (fuel : Nat) (h : ∀ s ∈ ss, WfSymbol s)
     (hf : ss.length < fuel) :
     parseRecords wa fuel ((ss.map fun s => encSymbolRecord s (wantedAttrs wa)).flatten) =
-      .ok (ss.map (recOfSymbol wa)) := by
-  sorry
+      .ok (ss.map (recOfSymbol wa)) :=
+  up_records wa ss h fuel hf
+
+example : (∀ s ∈ [exSym, { exSym with inst := 9, name := [], dims := [] }], WfSymbol s) ∧
+    [exSym, { exSym with inst := 9, name := [], dims := [] }].length < 3 := by unfold WfSymbol; decide
+example : parseRecords false 3
+    (([exSym, { exSym with inst := 9, name := [], dims := [] }].map fun s => encSymbolRecord s (wantedAttrs false)).flatten) =
+    .ok ([exSym, { exSym with inst := 9, name := [], dims := [] }].map (recOfSymbol false)) :=
+  records_roundtrip false _ 3 (by unfold WfSymbol; decide) (by decide)
 
 /-- the continuation point after a partial page is the last returned instance + 1 -/
 theorem next_instance_after_page (ss : List Symbol) (s : Symbol) (wa : Bool) :
     nextInstance 6 ((ss ++ [s]).map (recOfSymbol wa)) = some (s.inst + 1) ∧
     nextInstance 0 ((ss ++ [s]).map (recOfSymbol wa)) = none := by
-  sorry
+  simp [nextInstance, recOfSymbol]
+
+example : nextInstance 6 (([{ exSym with inst := 3 }] ++ [exSym]).map (recOfSymbol true)) = some 8 ∧
+    nextInstance 0 (([{ exSym with inst := 3 }] ++ [exSym]).map (recOfSymbol true)) = none :=
+  next_instance_after_page [{ exSym with inst := 3 }] exSym true
 
 /-- a structure definition as the controller stores it (any zero padding after it) is parsed to exactly its
     name, its members in order with their info / type / offset fields, and the visible-member list that
@@ -59,11 +66,26 @@ theorem next_instance_after_page (ss : List Symbol) (s : Symbol) (wa : Bool) :
 theorem template_roundtrip (t : Template) (tname : Name) (junk : Bytes) (symbolType pad : Nat)
     (h : WfTemplate t tname junk) :
     ∃ pt, parseTemplate t.members.length symbolType (t.defBytes ++ List.replicate pad 0) = .ok pt ∧
-      pt.name = some (if tname = nm "ASCIISTRING82" then nm "STRING" else tname) ∧
+      pt.name = some (if tname = Up.nm "ASCIISTRING82" then Up.nm "STRING" else tname) ∧
       pt.members.map (fun m => (m.name, m.info, m.typ, m.offset)) =
         t.members.map (fun m => (m.name, m.info, m.typeWord, m.offset)) ∧
       pt.members.map (·.priv) = t.members.map (fun m => hidden (isPredefined symbolType) m.name) ∧
       pt.attributes = (t.members.filter fun m => !hidden (isPredefined symbolType) m.name).map (·.name) := by
-  sorry
+  obtain ⟨str, hs⟩ := up_template t tname junk symbolType pad h
+  refine ⟨_, hs, ?_, ?_, ?_, ?_⟩
+  · simp
+  · simp [pmOf, List.map_map, Function.comp_def]
+  · simp [pmOf, List.map_map, Function.comp_def]
+  · simp [pmOf, List.filter_map, List.map_map, Function.comp_def]
+
+example : WfTemplate exTmpl [77, 121, 84] [110, 0xC8] := by unfold WfTemplate WfMember Ident; decide
+example : ∃ pt, parseTemplate 3 0x8123 (exTmpl.defBytes ++ List.replicate 5 0) = .ok pt ∧
+    pt.name = some [77, 121, 84] ∧
+    pt.members.map (·.priv) = [false, true, false] ∧
+    pt.attributes = [[76, 69, 78], [68, 65, 84, 65]] := by
+  obtain ⟨pt, h1, h2, _, h4, h5⟩ := template_roundtrip exTmpl [77, 121, 84] [110, 0xC8] 0x8123 5
+    (by unfold WfTemplate WfMember Ident; decide)
+  exact ⟨pt, h1, by rw [h2]; decide, by rw [h4]; decide, by rw [h5]; decide⟩
+
 
 end Pycomm.Lgx.Up
